@@ -56,7 +56,7 @@ abbrev VM := Except PanicInfo
 
 /-- `VisitAttrPath` (with repair D1); `path` = the ATTRNAME texts, outermost first -/
 def visitAttrPath (s : VState) : List String → VM VState
-  | [] => .ok s
+  | [] => .ok { s with leftOp := .null, stack := [] }     -- no such tree comes out of the parser (a path has >= 1 name)
   | [k] =>
     let item : Value := match s.stack with
       | top :: _ => top                 -- pop
@@ -96,9 +96,7 @@ def visitSubInts (s : VState) : List String → VM VState
       | none => .ok { s1 with err := some .badLiteral }
       | some v =>
         let s2 := { s1 with rightOp := .ints (l ++ [v]) }
-        match rest with
-        | [] => .ok s2
-        | _ => visitSubInts s2 rest
+        visitSubInts s2 rest      -- (returns at once when no element is left)
     | _ => .error ⟨.typeAssert, s.calls⟩
 
 /-- `VisitSubListOfDoubles` -/
@@ -114,9 +112,7 @@ def visitSubFloats (s : VState) : List String → VM VState
       | none => .ok { s1 with err := some .badLiteral }
       | some v =>
         let s2 := { s1 with rightOp := .floats (l ++ [v]) }
-        match rest with
-        | [] => .ok s2
-        | _ => visitSubFloats s2 rest
+        visitSubFloats s2 rest      -- (returns at once when no element is left)
     | _ => .error ⟨.typeAssert, s.calls⟩
 
 /-- `VisitSubListOfStrings` -/
@@ -129,9 +125,7 @@ def visitSubStrs (s : VState) : List String → VM VState
     match s1.rightOp with
     | .strs l =>
       let s2 := { s1 with rightOp := .strs (l ++ [getStringLit t]) }
-      match rest with
-      | [] => .ok s2
-      | _ => visitSubStrs s2 rest
+      visitSubStrs s2 rest
     | _ => .error ⟨.typeAssert, s.calls⟩
 
 /-- `ctx.Value().Accept(j)`: the literal visitors -/
